@@ -25,7 +25,7 @@ void profile_blast(RunCtx& ctx)
 {
     Rng rng{ctx.run_seed};
     GenCfg cfg;
-    Model m = small_or_drawn_model(ctx, rng, cfg);
+    Model m = small_or_drawn_model(ctx, rng, cfg, false);  // template indices of the model and of the document must coincide
     m.queries.clear();
     XmlKnobs kn = draw_knobs(rng);
     kn.pad_text = false;
